@@ -99,7 +99,7 @@ def props_check(prop_file, timeout=900):
     Returns dict(obligations, discharged, theorems, axioms, ok, log)."""
     src = os.path.join(COQ, "theories", "Props", prop_file + ".v")
     text = open(src).read()
-    theorems = re.findall(r"^\s*(?:Theorem|Lemma|Corollary)\s+([A-Za-z0-9_']+)", text, re.M)
+    theorems = re.findall(r"^\s*Theorem\s+([A-Za-z0-9_']+)", text, re.M)
     vo = os.path.join(COQ, "theories", "Props", prop_file + ".vo")
     if os.path.exists(vo):
         os.remove(vo)
